@@ -103,14 +103,69 @@ Proof. induction 1 as [|x l l' P IH|x y l|l l' l'' P1 IH1 P2 IH2]; cbn; try cong
   - rewrite IH. f_equal. now apply existsb_perm.
   - rewrite (Nat.eqb_sym x y). destruct (Nat.eqb y x), (existsb (Nat.eqb x) l), (existsb (Nat.eqb y) l), (has_dup l); reflexivity. Qed.
 
+(* the sequential check accepts exactly the listings that are in range and duplicate-free *)
+Lemma remain_check_none_iff nax : forall rem seen,
+  remain_check nax seen rem = None <->
+  (existsb (fun i => (i <? 0)%Z || (Z.of_nat nax <=? i)%Z) rem = false /\ has_dup (map Z.to_nat rem) = false /\
+   forall i, In i rem -> existsb (Nat.eqb (Z.to_nat i)) seen = false).
+Proof. induction rem as [|i t IH]; intros seen; cbn [remain_check existsb map has_dup].
+  - split; [intros _; repeat split; intros i []|reflexivity].
+  - destruct ((i <? 0)%Z || (Z.of_nat nax <=? i)%Z) eqn:Er; cbn [orb].
+    { split; [discriminate|intros [H _]; discriminate]. }
+    destruct (existsb (Nat.eqb (Z.to_nat i)) seen) eqn:Es.
+    { split; [discriminate|]. intros [_ [_ H]]. rewrite (H i (or_introl eq_refl)) in Es. discriminate. }
+    rewrite IH. split.
+    + intros [H1 [H2 H3]]. split; [exact H1|]. split.
+      * apply orb_false_iff. split; [|exact H2].
+        apply not_true_is_false. intros Hx. apply existsb_exists in Hx. destruct Hx as [y [Hy Ey]].
+        apply in_map_iff in Hy. destruct Hy as [j [<- Hj]]. specialize (H3 j Hj). cbn [existsb] in H3.
+        apply orb_false_iff in H3. destruct H3 as [H3 _]. rewrite Nat.eqb_sym in H3. congruence.
+      * intros j [<-|Hj]; [exact Es|]. specialize (H3 j Hj). cbn [existsb] in H3. now apply orb_false_iff in H3.
+    + intros [H1 [H2 H3]]. apply orb_false_iff in H2. destruct H2 as [H2 H2']. split; [exact H1|]. split; [exact H2'|].
+      intros j Hj. cbn [existsb]. apply orb_false_iff. split; [|apply H3; now right].
+      apply not_true_is_false. intros Hx. rewrite Nat.eqb_sym in Hx.
+      assert (existsb (Nat.eqb (Z.to_nat i)) (map Z.to_nat t) = true); [|congruence].
+      apply existsb_exists. exists (Z.to_nat j). split; [apply in_map; exact Hj|exact Hx]. Qed.
+
+Lemma remain_check_perm nax rem rem' : Permutation rem rem' ->
+  (remain_check nax [] rem = None <-> remain_check nax [] rem' = None).
+Proof. intros P. rewrite !remain_check_none_iff.
+  rewrite (existsb_perm _ rem rem' P), (has_dup_perm _ _ (Permutation_map Z.to_nat P)).
+  split; intros [A [B _]]; (split; [exact A|split; [exact B|intros i _; reflexivity]]). Qed.
+
+(* a valid listing (in range, no index twice) and any permutation of it give the IDENTICAL marginal; an invalid listing
+   stays invalid under permutation (which of the two errors is reported depends on what is listed first) *)
+Definition same_outcome (a b : mres (dist F)) : Prop :=
+  match a, b with MOk x, MOk y => x = y | MErr _, MErr _ => True | _, _ => False end.
+
 Theorem marginalize_order_irrelevant tol d rem rem' :
-  Permutation rem rem' -> marginalize F tol d rem = marginalize F tol d rem'.
+  Permutation rem rem' -> same_outcome (marginalize F tol d rem) (marginalize F tol d rem').
 Proof. intros P. unfold marginalize.
-  rewrite (existsb_perm _ rem rem' P).
-  assert (P' : Permutation (map Z.to_nat rem) (map Z.to_nat rem')) by now apply Permutation_map.
-  rewrite (has_dup_perm _ _ P').
-  assert (E : map (fun a => existsb (Nat.eqb a) (map Z.to_nat rem)) (seq 0 (length (d_shape F d))) =
-              map (fun a => existsb (Nat.eqb a) (map Z.to_nat rem')) (seq 0 (length (d_shape F d)))).
-  { apply map_ext. intros a. now apply existsb_perm. }
-  now rewrite E. Qed.
+  pose proof (remain_check_perm (length (d_shape F d)) rem rem' P) as Hc.
+  destruct (remain_check (length (d_shape F d)) [] rem) as [c|] eqn:E1;
+  destruct (remain_check (length (d_shape F d)) [] rem') as [c'|] eqn:E2; cbn.
+  - exact I.
+  - destruct Hc as [_ Hc]. specialize (Hc eq_refl). discriminate.
+  - destruct Hc as [Hc _]. specialize (Hc eq_refl). discriminate.
+  - assert (E : map (fun a => existsb (Nat.eqb a) (map Z.to_nat rem)) (seq 0 (length (d_shape F d))) =
+                map (fun a => existsb (Nat.eqb a) (map Z.to_nat rem')) (seq 0 (length (d_shape F d)))).
+    { apply map_ext. intros a. apply existsb_perm. now apply Permutation_map. }
+    rewrite E. destruct (construct F tol tol _ _); [reflexivity|exact I]. Qed.
+
+(* the error branch of marginalize, exactly: ValueError for the first out-of-range index, KeyError for the first repeated one *)
+Theorem marginalize_valid_iff (d : dist F) rem :
+  (exists c, (c = 4 \/ c = 5)%nat /\ remain_check (length (d_shape F d)) [] rem = Some c) \/
+  (remain_check (length (d_shape F d)) [] rem = None /\
+   Forall (fun i => (0 <= i < Z.of_nat (length (d_shape F d)))%Z) rem /\ has_dup (map Z.to_nat rem) = false).
+Proof. destruct (remain_check _ [] rem) as [c|] eqn:E.
+  - left. exists c. split; [|reflexivity]. clear -E. revert E. generalize (@nil nat).
+    induction rem as [|i t IH]; intros seen; cbn [remain_check]; [discriminate|].
+    destruct (_ || _); [intros H; inversion H; now left|].
+    destruct (existsb _ seen); [intros H; inversion H; now right|apply IH].
+  - right. split; [reflexivity|]. apply remain_check_none_iff in E. destruct E as [A [B _]]. split; [|exact B].
+    apply Forall_forall. intros i Hi.
+    assert (Hx : ((i <? 0)%Z || (Z.of_nat (length (d_shape F d)) <=? i)%Z) = false).
+    { apply not_true_is_false. intros Hx. assert (existsb (fun i => (i <? 0)%Z || (Z.of_nat (length (d_shape F d)) <=? i)%Z) rem = true); [|congruence].
+      apply existsb_exists. exists i. split; assumption. }
+    apply orb_false_iff in Hx. destruct Hx as [H1 H2]. apply Z.ltb_ge in H1. apply Z.leb_gt in H2. lia. Qed.
 End MultinomialProofs.
